@@ -310,6 +310,32 @@ func (c *Case) ExitResume() {
 // consulted: it receives the goroutine dump and records the verdict; the process then
 // exits (a stuck goroutine cannot be removed from a bubble).
 func (c *Case) Bubble(f func(), leaked func(dump string)) {
+	// Deadlock watchdog (runs OUTSIDE the bubble). A goroutine blocked on a sync.Mutex that is
+	// never released is not "durably blocked" for synctest: Wait() never returns and virtual
+	// time stops. The verdict is taken from the goroutine STATES, not from the clock: two
+	// dumps 3 s apart in which no goroutine of the bubble is running/runnable, all stacks are
+	// identical and at least one waits for a mutex = deadlock. The wall clock only paces the
+	// sampling; a case that is merely slow always shows a running goroutine.
+	done := make(chan struct{})
+	defer close(done)
+	go func() {
+		prev := ""
+		for {
+			select {
+			case <-done:
+				return
+			case <-time.After(3 * time.Second):
+			}
+			buf := make([]byte, 4<<20)
+			dump := bubbleStates(string(buf[:runtime.Stack(buf, true)]))
+			if dump != "" && dump == prev {
+				c.Violation("deadlock/mutex-never-released/"+firstLibFrame(dump),
+					"every goroutine of the scenario is blocked, at least one on a mutex that no running goroutine can release (two identical goroutine dumps 3 s apart):\n%s", dump)
+				c.ExitResume()
+			}
+			prev = dump
+		}
+	}()
 	synctest.Test(c.T, func(t *testing.T) {
 		base := runtime.NumGoroutine()
 		f()
@@ -458,3 +484,53 @@ func (h *Hash) Bytes(b []byte) *Hash {
 }
 func (h *Hash) Str(s string) *Hash { return h.Bytes([]byte(s)) }
 func (h *Hash) Sum() uint64       { return mix(h.h) }
+
+// bubbleStates returns the stacks of the bubble's goroutines if none of them can run and at
+// least one waits for a mutex; "" otherwise.
+func bubbleStates(dump string) string {
+	var out []string
+	mutex := false
+	for _, g := range strings.Split(dump, "\n\n") {
+		head, _, _ := strings.Cut(g, "\n")
+		if !strings.Contains(head, "synctest bubble") {
+			continue
+		}
+		if strings.Contains(head, "[running") || strings.Contains(head, "[runnable") || strings.Contains(head, "[syscall") {
+			return ""
+		}
+		if strings.Contains(head, "sync.Mutex.Lock") || strings.Contains(head, "sync.RWMutex") {
+			mutex = true
+		}
+		// drop the goroutine ids / minutes from the header so that two samples compare equal
+		if i := strings.Index(head, "["); i >= 0 {
+			head = head[i:]
+		}
+		if j := strings.Index(head, ","); j >= 0 && strings.Contains(head, "minutes") {
+			head = head[:j] + "]"
+		}
+		_, rest, _ := strings.Cut(g, "\n")
+		out = append(out, head+"\n"+rest)
+	}
+	if !mutex {
+		return ""
+	}
+	sort.Strings(out)
+	s := strings.Join(out, "\n\n")
+	if len(s) > 5000 {
+		s = s[:5000] + "…"
+	}
+	return s
+}
+
+func firstLibFrame(dump string) string {
+	for _, ln := range strings.Split(dump, "\n") {
+		if strings.HasPrefix(ln, "github.com/pion/interceptor/") && !strings.HasPrefix(ln, "github.com/pion/interceptor/verif/") {
+			fn := strings.TrimPrefix(ln, "github.com/pion/interceptor/")
+			if i := strings.LastIndex(fn, "("); i > 0 {
+				fn = fn[:i]
+			}
+			return fn
+		}
+	}
+	return "?"
+}
